@@ -71,6 +71,7 @@ def where_enum2(M, mask, st):
     st.assume(forall([k, k2], IMPLIES(AND(0 <= k, k < k2, k2 < n), OR(f(k) < f(k2), AND(f(k) == f(k2), t(k) < t(k2))))))
     st.assume(forall([i, j], IMPLIES(AND(in_range(i, 0, R), in_range(j, 0, C), tr(i, j)),
                                      AND(in_range(rk(i, j), 0, n), f(rk(i, j)) == i, t(rk(i, j)) == j))))
+    st.assume(n == count_true(M, lambda a, b: tr(a, b), [R, C], st, 'nwhere'))
     M.ex.use('A-NUMPY:where-2d enumerates true positions in row-major order')
     return SArr((n,), lambda kk: f(Z(kk)), 'int'), SArr((n,), lambda kk: t(Z(kk)), 'int')
 
@@ -160,6 +161,20 @@ def truthy(M, st):
 
 
 def arr_sum(M, a, axis, st, node):
+    # the sum of the same (unmodified) array value is the same term every time it is evaluated on a path
+    memo = st.ghost.get('sum_memo', {})
+    key = (id(a.get), repr(axis), tuple(str(s_) for s_ in a.shape))
+    if key in memo:
+        return memo[key]
+    r = _arr_sum(M, a, axis, st, node)
+    memo = dict(st.ghost.get('sum_memo', {}))
+    memo[key] = r
+    st.ghost['sum_memo'] = memo
+    st.ghost.setdefault('keepalive', []).append(a)      # keep the array alive so that id() stays unique
+    return r
+
+
+def _arr_sum(M, a, axis, st, node):
     tr = truthy(M, st)
     if a.kind == 'obj':
         raise Unsupported('sum of object array')
